@@ -8,6 +8,7 @@ package c15
 
 import (
 	"fmt"
+	ff "github.com/unixpickle/model3d/fileformats"
 	"math"
 	"math/big"
 	"strconv"
@@ -471,6 +472,32 @@ func checkOFF(c offCase, o *kit.Obs) error {
 		o.Label("mesh:empty")
 	}
 
+	// the polygon-level reader: all faces are collected first and looked at afterwards
+	if or, err := ff.NewOFFReader(newReader([]byte(text), c.Chunk)); err != nil {
+		return fmt.Errorf("NewOFFReader rejects a well-formed OFF file: %v\n%q", err, clipText(text))
+	} else {
+		if or.NumFaces() != len(c.Faces) {
+			return fmt.Errorf("OFFReader.NumFaces() = %d, the file declares %d\n%q", or.NumFaces(), len(c.Faces), clipText(text))
+		}
+		var polys [][][3]float64
+		for range c.Faces {
+			f, err := or.ReadFace()
+			if err != nil {
+				return fmt.Errorf("OFFReader.ReadFace: %v\n%q", err, clipText(text))
+			}
+			polys = append(polys, f)
+		}
+		for fi, f := range c.Faces {
+			if len(polys[fi]) != len(f) {
+				return fmt.Errorf("OFFReader: face %d has %d corners, written with %d\n%q", fi, len(polys[fi]), len(f), clipText(text))
+			}
+			for k, idx := range f {
+				if polys[fi][k] != want[idx] {
+					return fmt.Errorf("OFFReader: face %d corner %d reads %v after all faces were read, written %v\n%q", fi, k, polys[fi][k], want[idx], clipText(text))
+				}
+			}
+		}
+	}
 	got, err := model3d.ReadOFF(newReader([]byte(text), c.Chunk))
 	if err != nil {
 		return fmt.Errorf("ReadOFF rejects a well-formed OFF file: %v\n%q", err, clipText(text))
